@@ -10,7 +10,8 @@ use crate::val::{same_val, Val};
 use serde_json::json;
 
 /// literals for the `literal-pairs` family: spelling as written in a program
-const LITERALS: [&str; 34] = [
+const LITERALS: [&str; 39] = [
+    "3.141592653589793238462643", "0.1000000000000000055511151231257827", "123456789012345678901234567890.5", "0.000000000000000000000000000001234567890123456789", "2.71828182845904523536",
     "0", "1", "-1", "7", "-7", "255", "256", "65535", "65536", "1152921504606846975", "-1152921504606846975", "0.0", "-0.0", "1.0", "-1.0", "0.5",
     "-0.5", "0.1", "-0.1", "1.5", "100.25", "0.30000000000000004", "3.141592653589793", "1000000000000000000000.0", "-1000000000000000000000.0",
     "0.000000000000000000001", "ja", "nee", "\"\"", "\"0\"", "\"0.0\"", "\"-0.0\"", "\"ja\"", "\"é\"",
@@ -36,7 +37,11 @@ const XVALS: [(&str, &str); 14] = [
 ];
 
 /// (literal, a statement that changes the value held by `t` in place) for the `literal-reevaluation` family
-const RELITS: [(&str, &str); 12] = [
+const RELITS: [(&str, &str); 16] = [
+    ("string(\"abc\")", "t[0] = \"#\""),
+    ("[string(\"ab\"), \"ab\"]", "stel c = t[0]; c[0] = \"#\""),
+    ("string(\"é\") + \"\"", "t[0] = \"e\""),
+    ("[lengte(\"abc\"), string(\"abc\"), type(\"abc\")]", "stel c = t[1]; c[1] = \"#\"; stel d = t[2]; d[0] = \"#\""),
     ("[0, 0]", "t[0] = t[0] + 5"),
     ("[1.5, ja, 7]", "t[2] = t[2] * 2; t[1] = nee"),
     ("[[1], [2, 3]]", "stel r = t[0]; r[0] = r[0] + 10"),
@@ -284,6 +289,7 @@ impl C15 {
                 ("literal-pairs", 40),
                 ("cross-type-equality", 60),
                 ("literal-reevaluation", 12),
+                ("immediate-collisions", 2),
             ]);
         }
         Families::new(vec![
@@ -300,6 +306,7 @@ impl C15 {
             ("literal-pairs", (LITERALS.len() * LITERALS.len()) as u64),
             ("cross-type-equality", (XVALS.len() * XVALS.len() * 5) as u64),
             ("literal-reevaluation", (RELITS.len() * 4) as u64),
+            ("immediate-collisions", 12),
         ])
     }
 
@@ -482,6 +489,43 @@ impl Check for C15 {
                 let got = format!("{}", twice);
                 if !once.contains("[...]") && got != format!("[{}, {}]", once, once) {
                     st.violation("roundtrip:array-shared-rendering", format!("an array that holds the same array twice is rendered as {}, the array itself as {}", crate::obs::clip(&got, 300), crate::obs::clip(&once, 150)), &txt);
+                }
+            }
+            "immediate-collisions" => {
+                // Functions, booleans, null and integers are all stored inside the pointer word. One program holds functions
+                // with 0-3 locals at many code offsets together with every integer that equals such a function's (or a
+                // boolean's, or null's) payload under one of the plausible packings — offset * 2^16 + count, offset * 2^32 +
+                // count, the same shifted by the three tag bits, the small numbers — and reads all of them back.
+                let shift = [16u32, 32, 19, 35, 13, 29][(i % 6) as usize];
+                let dense = i / 6 == 0;
+                let mut items: Vec<String> = vec![];
+                let mut want: Vec<Val> = vec![];
+                let pad = if dense { 1 } else { 7 };
+                for off in 0..220i64 {
+                    for cnt in 0..4i64 {
+                        let v = ((off * pad) << shift) | cnt;
+                        if v <= crate::props::MAX_INT {
+                            items.push(v.to_string());
+                            want.push(Val::Int(v));
+                        }
+                    }
+                }
+                for v in [0i64, 1, 2, 3, 4, 5, 6, 7, 8] {
+                    items.push(v.to_string());
+                    want.push(Val::Int(v));
+                }
+                let text = format!(
+                    "functie f0() {{ 7 }}; functie f1(a) {{ a }}; functie f2(a, b) {{ stel c = a + b; c }}; functie f3(a) {{ stel b = a; stel c = b; c }}; stel fs = [f0, f1, f2, f3, functie() {{ 9 }}]; stel ks = [{}]; stel g = fs[4]; [ks, f0(), f1(5), f2(1, 2), f3(4), g(), type(f0), type(ks[3]), ja, nee, type(ja)]",
+                    items.join(", ")
+                );
+                let want = Val::Array(vec![Val::Array(want), Val::Int(7), Val::Int(5), Val::Int(3), Val::Int(4), Val::Int(9), Val::Str("functie".into()), Val::Str("int".into()), Val::Bool(true), Val::Bool(false), Val::Str("bool".into())]);
+                let o = crate::obs::eval_observed(&text, &crate::obs::ObsCfg::plain(100_000));
+                st.evaluations += 1;
+                st.count("immediate-collisions");
+                st.distinct_hash(hash_str(&text));
+                let ok = matches!(&o.outcome, crate::obs::Outcome::Value(v) if same_val(v, &want));
+                if !ok {
+                    st.violation("immediate-collisions:read-back", format!("functions and integers written together do not read back as written (packing with shift {}): got {}", shift, crate::obs::clip(&o.outcome.render(), 300)), &crate::obs::clip(&text, 600));
                 }
             }
             "literal-reevaluation" => {
